@@ -1,4 +1,5 @@
 import OmbottModel.Model.BodyAccess
+import OmbottModel.Lemmas.BodyAccessTotal
 import OmbottModel.Gen.Forms
 /-!
 C12 — Malformed request bodies yield client errors, never server faults.
@@ -28,5 +29,51 @@ theorem raise_probe_tie :
 theorem errors_map_client_errors :
     (∀ e ∈ Gen.formsErrorsMap, 400 ≤ e.2 ∧ e.2 < 500) ∧ (mapGet Gen.formsErrorsMap "RequestError").isSome := by
   decide
+
+/-! ### the property -/
+
+/-- **No server fault.**  For every content type (present or not, any text: multipart with any
+boundary, urlencoded, JSON, anything else), every `content_length`, every result of the body
+reader (any list of parts — i.e. any byte string in any fragmentation — or either `RequestError`
+class), every `max_memfile_size`, every `json.loads` that keeps its contract, and every sequence of
+accesses to `body | json | POST | forms | files` on that request (each outcome caught by the
+handler or not): the outcome is a value (the handler goes on: 200) or an `HTTPError` of the live
+`errors_map` with a 4xx status.  No built-in exception and no unmapped `RequestError` reaches the
+catch-all of `_handle`.  Every function of `Model/Forms.lean` and `Model/BodyAccess.lean` is
+structurally recursive over its input, so none of the modelled loops can spin; the two `while True`
+loops of the multipart markup (`_eat_data`, `iter_markup`) carry fuel in `Model/Multipart.lean`, and
+that this fuel is never exhausted is C06's `eatData_never_out_of_fuel` /
+`iterMarkup_never_out_of_fuel` (the "no hang" half for those two loops rests on them). -/
+theorem body_access_total (maxMemfile : Nat) (jl : JLoads) (hjl : JsonContract jl) (req : Req)
+    (accs : List Accessor) :
+    ∀ o ∈ accessSeq ⟨maxMemfile, Gen.formsErrorsMap⟩ jl req {} accs,
+      statusOf o = 200 ∨ (400 ≤ statusOf o ∧ statusOf o < 500) := by
+  intro o ho
+  have hm : Map4xx Gen.formsErrorsMap := errors_map_client_errors
+  exact good_status o (accessSeq_good ⟨maxMemfile, Gen.formsErrorsMap⟩ hm jl hjl req accs {}
+    (fun h => by simp at h) o ho)
+
+section NonVacuity
+
+/-- a `json.loads` that keeps the contract (it raises `ValueError` on everything) -/
+example : JsonContract (fun _ => .raises (.py .valueError)) := by
+  intro b e h; cases h; exact Or.inl rfl
+
+/-- the contract is needed: a `json.loads` raising `TypeError` gives a 500 -/
+example :
+    (accessSeq ⟨100, Gen.formsErrorsMap⟩ (fun _ => .raises (.py .typeError))
+      ⟨some "application/json".toList, 2, .ok [[123, 125]]⟩ {} [.json]).map statusOf = [500] := by
+  decide
+
+/-- a part with an empty header block is a client error (was a 500 before fix 57b6c35):
+`--b CRLF CRLF CRLF x CRLF --b--` read through `forms`, then `files`, then `body` -/
+example :
+    (accessSeq ⟨100, Gen.formsErrorsMap⟩ (fun _ => .null)
+      ⟨some "multipart/form-data; boundary=b".toList, 17,
+       .ok [[45, 45, 98, 13, 10, 13, 10, 13, 10, 120, 13, 10, 45, 45, 98, 45, 45]]⟩ {}
+      [.forms, .files, .body]).map statusOf = [400, 200, 200] := by
+  decide +kernel
+
+end NonVacuity
 
 end Ombott.BodyAccess
